@@ -42,6 +42,13 @@ type nilUnwrap struct{}
 func (e *nilUnwrap) Error() string { return "nilUnwrap" }
 func (e *nilUnwrap) Unwrap() error { return nil }
 
+// multiErr is a hand-written multi-error (one slot per task, nil for the tasks that succeeded), as errors.Is / errors.As
+// accept them: nil slots are skipped.
+type multiErr struct{ errs []error }
+
+func (e *multiErr) Error() string   { return "multi" }
+func (e *multiErr) Unwrap() []error { return e.errs }
+
 var (
 	EA = errors.New("EA")
 	EB = errors.New("EB")
@@ -71,10 +78,12 @@ var (
 		"wtemp":    fmt.Errorf("w: %w", &tempErr{"temp2"}),
 		"isEC":     &isErr{},
 		"nilUnwrp": &nilUnwrap{},
+		"m0TV1":    &multiErr{[]error{nil, TV{1}}},
+		"m0wEA":    &multiErr{[]error{nil, nil, fmt.Errorf("w: %w", EA)}},
 	}
 	// SimpleErrs is the small universe used where classification richness is not the subject.
 	SimpleErrs = []string{"", "", "EA", "EB", "wEA"}
-	AllErrs    = []string{"", "EA", "EB", "EC", "EU", "wEA", "wwEA", "wEB", "jEAEB", "jUwEB", "TV1", "TV2", "TP1", "wTV1", "jTP1", "wjTP1", "temp", "wtemp", "isEC", "nilUnwrp"}
+	AllErrs    = []string{"", "EA", "EB", "EC", "EU", "wEA", "wwEA", "wEB", "jEAEB", "jUwEB", "TV1", "TV2", "TP1", "wTV1", "jTP1", "wjTP1", "temp", "wtemp", "isEC", "nilUnwrp", "m0TV1", "m0wEA"}
 )
 
 func ErrName(e error) string {
